@@ -154,13 +154,24 @@ pub fn catch<T>(f: impl FnOnce() -> T) -> Option<T> {
     r
 }
 
-/// panics of the code under test are data and stay silent; a panic of the harness itself is
-/// a tool error: print it and exit 2
+/// where a panic outside any `catch` happened, if it was raised by the code under test
+pub static UNCAUGHT: std::sync::Mutex<Option<(String, u32)>> = std::sync::Mutex::new(None);
+
+/// Panics of the code under test are data and stay silent.  A panic outside any `catch` is
+/// attributed by its location: raised inside the crate under test (its sources are outside
+/// this harness) it is still data - the family run is cut short and an `uncaught_panic` event,
+/// which no trace specification accepts, is recorded; raised by the harness's own code it is
+/// a tool error: print it and exit 2.
 pub fn silence_panics() {
     std::panic::set_hook(Box::new(|info| {
         if IN_CATCH.with(|c| c.get()) == 0 {
-            eprintln!("xv: harness panic: {}", info);
-            std::process::exit(2);
+            let (file, line) = info.location().map(|l| (l.file().to_string(), l.line())).unwrap_or(("?".into(), 0));
+            let harness = file.starts_with("src/") || file.starts_with("/rustc/") || file == "?" || file.contains("/harness/src/");
+            if harness {
+                eprintln!("xv: harness panic: {}", info);
+                std::process::exit(2);
+            }
+            *UNCAUGHT.lock().unwrap() = Some((file, line));
         }
     }));
 }
